@@ -126,6 +126,13 @@ class Folder(object):
                 sep = f(node.func.value)
                 seq = f(node.args[0])
                 return sep.join(seq)
+            if isinstance(node.func, ast.Attribute) and node.func.attr == "format":
+                base = f(node.func.value)
+                if isinstance(base, str):
+                    try:
+                        return base.format(*[f(a) for a in node.args], **dict((k.arg, f(k.value)) for k in node.keywords if k.arg))
+                    except Exception as exc:
+                        raise Unfoldable(str(exc))
             if fn in ("Namespace",):
                 return "NSBASE:" + str(f(node.args[0]))
             if fn in ("copy.deepcopy", "copy.copy", "dict", "list", "tuple", "set") and len(node.args) == 1:
